@@ -172,7 +172,12 @@ class BufferedReader:
                     yield self._buffer[:pos]
                 return
 
-        yield self._buffer
+        # NOTE: The source is exhausted; hand over the rest of the buffer and
+        #   mark it as consumed so that it is not returned twice.
+        output = self._buffer
+        self._buffer = b''
+        self._buffer_len = 0
+        yield output
 
     async def _consume_delimiter(self, delimiter: bytes) -> None:
         delimiter_len = len(delimiter)
